@@ -788,8 +788,10 @@ class DateTime(datetime.datetime, Date):
         # of the instance: a skipped boundary is resolved forward,
         # a repeated one to its first occurrence.
         dt = getattr(self.replace(fold=1), f"_start_of_{unit}")()
+        first = dt.replace(fold=0)
 
-        return cast("Self", dt.replace(fold=0))
+        # Only a repeated start needs fold=0 (its first occurrence)
+        return cast("Self", first if first.utcoffset() != dt.utcoffset() else dt)
 
     def end_of(self, unit: str) -> Self:
         """
